@@ -479,4 +479,55 @@ def straddleCount (es : List (P2 × P2)) : Int := isum (es.map straddle1)
 /-- the edges of `poly` seen from `p` -/
 def edgesFrom (poly : List P2) (p : P2) : List (P2 × P2) := cycPairs (poly.map (fun v => sub2 v p))
 
+/-! #### decidable input conditions of the point_in_polygon theorems (evaluated by the driver on every case) -/
+
+/-- generic position w.r.t. the vertical line through `p`, `p` on no edge meeting it, at most two edges met -/
+def pipGeneric (poly : List P2) (p : P2) : Bool :=
+  decide (∀ v ∈ poly, v.1 ≠ p.1)
+    && decide (∀ e ∈ edgesFrom poly p, (isLR e || isRL e) = true → cross2 e.1 e.2 ≠ 0)
+
+def pipKernel (poly : List P2) (p : P2) (s : Rat) : Bool :=
+  decide (∀ e ∈ cycPairs poly, 0 < s * cross2 (sub2 e.1 p) (sub2 e.2 p))
+
+def isConvexCcw (poly : List P2) : Bool :=
+  decide (∀ e ∈ cycPairs poly, ∀ v ∈ poly, 0 ≤ cross2 (sub2 e.2 e.1) (sub2 v e.1))
+
+def evenOddUp (poly : List P2) (p : P2) : Bool :=
+  decide ((upLR (edgesFrom poly p) + upRL (edgesFrom poly p)) % 2 = 1)
+
+/-- the answer that the theorems of Props.lean PROVE for this input (`none`: not covered by a theorem,
+    the case is tied by correspondence and oracle only) -/
+def pipProvedAnswer (poly : List P2) (p : P2) : Option Bool :=
+  if poly.isEmpty then none
+  else if pipKernel poly p 1 || pipKernel poly p (-1) then some true
+  else if pipGeneric poly p && decide (straddleCount (edgesFrom poly p) ≤ 2) then some (evenOddUp poly p)
+  else if pipGeneric poly p && evenOddUp poly p then some true
+  else if isConvexCcw poly && (cycPairs poly).any (fun e => decide (cross2 (sub2 e.1 p) (sub2 e.2 p) < 0))
+    then some false
+  else none
+
+/-! #### decidable input conditions of collinear_spec / planar_spec -/
+
+def isIntB (x : Rat) : Bool := x.den == 1
+def isInt3B (p : P3) : Bool := isIntB p.1 && isIntB p.2.1 && isIntB p.2.2
+
+/-- the answer PROVED by `collinear_spec` (integer points, tolerance below the band bound) -/
+def collinearProvedAnswer (pts : List P3) (tol : Rat) : Option Bool :=
+  match pts with
+  | [] => none
+  | p0 :: _ =>
+    if pts.all isInt3B && decide (0 ≤ tol) && decide (tol * tol * maxPairSq pts 1 < 1) then
+      some (decide (∀ p ∈ pts, ∀ q ∈ pts, cross3 (sub3 p p0) (sub3 q p0) = (0, 0, 0)))
+    else none
+
+/-- the answer PROVED by `planar_spec` (integer normal and points, tolerance below the band bound) -/
+def planarProvedAnswer (N : P3) (pts : List P3) (tol : Rat) : Option Bool :=
+  match pts with
+  | [] => none
+  | p0 :: _ =>
+    if isInt3B N && decide (N ≠ (0, 0, 0)) && pts.all isInt3B && decide (0 ≤ tol)
+        && decide (tol * tol * ((pts.length : Rat) * (pts.length : Rat)) * nsq3 N < 1) then
+      some (decide (∀ p ∈ pts, dot3 N (sub3 p p0) = 0))
+    else none
+
 end PorepyVerif.C31
